@@ -1,33 +1,16 @@
 (* Correspondence evaluators for C13 (Base.Corr.code: 0 agree with model and oracle, 1 differs from model only, >= 2 oracle violated).
    Databases are finite association lists over the keys of Chain/Crash.v (projection done by the harness). *)
 From Coq Require Import List NArith Bool.
-From LE Require Import Base.Corr Chain.Crash.
+From LE Require Import Base.Corr Chain.Crash Chain.CrashFinite.
 Import ListNotations.
 Local Open Scope N_scope.
 
-Definition ldb := list (key * N).
-Fixpoint lget (l : ldb) (k : key) : option N :=
-  match l with [] => None | (k', v) :: r => if key_eqb k k' then Some v else lget r k end.
-Definition opt_eqb (a b : option N) : bool :=
-  match a, b with Some x, Some y => x =? y | None, None => true | _, _ => false end.
 Definition agree_on (ks : list key) (d1 d2 : db) : bool := forallb (fun k => opt_eqb (d1 k) (d2 k)) ks.
-Definition is_some (o : option N) : bool := match o with Some _ => true | None => false end.
-
-(* boolean Consistent over a finite database *)
-Definition consistent_b (l : ldb) : bool :=
-  forallb (fun e => match fst e with
-                    | KIdx h => opt_eqb (lget l (KHeader (snd e))) (Some h)
-                                && (if h =? 0 then true else is_some (lget l (KIdx (h - 1))))
-                    | KDiff h => is_some (lget l (KIdx h))
-                    | _ => true
-                    end) l
-  && match lget l KTipMark with
-     | Some t => is_some (lget l (KIdx t)) && negb (is_some (lget l (KIdx (t + 1))))
-     | None => false
-     end.
 
 Record step_case := mkSC {
-  s_before : ldb; s_after : ldb; s_op : cop; s_syncs : N; s_impl_ok : bool }.
+  s_before : ldb; s_after : ldb; s_op : cop;
+  s_syncs : N;            (* commit records appended to the write-ahead log during the step = durable writes *)
+  s_impl_ok : bool }.
 
 Definition check_step (c : step_case) : N :=
   let ks := map fst (s_before c) ++ map fst (s_after c) in
@@ -42,13 +25,19 @@ Record crash_case := mkCC {
   c_before : ldb; c_after : ldb; c_recovered : ldb;
   c_eq_before : bool; c_eq_after : bool;      (* whole-database digests, computed by the harness *)
   c_reopen_ok : bool; c_next_ok : bool;       (* the node restarted, and accepted a valid successor of its tip *)
-  c_j : N; c_syncs : N }.
+  c_j : N; c_syncs : N;                       (* syncs that reached the disk / syncs the step issued *)
+  c_first_wal : N;                            (* position of the first sync of the write-ahead log among them (0: none) *)
+  c_restore : option (N * N) }.               (* restore from the temp table: (height, id) of the block being restored *)
 
 Definition check_crash (c : crash_case) : N :=
   let ks := map fst (c_before c) ++ map fst (c_after c) ++ map fst (c_recovered c) in
   let rb := agree_on ks (lget (c_recovered c)) (lget (c_before c)) in
   let ra := agree_on ks (lget (c_recovered c)) (lget (c_after c)) in
   (* model: the write is one atomic action, so no sync reached the disk -> before; the step's sync reached it -> after *)
-  let agree_model := if c_j c =? 0 then rb && c_eq_before c else if c_j c =? c_syncs c then ra && c_eq_after c else rb || ra in
-  let agree_spec := c_reopen_ok c && consistent_b (c_recovered c) && (c_eq_before c || c_eq_after c) && (rb || ra) && c_next_ok c in
+  (* model: the write is one atomic action: before the log is synced at all -> before; every sync on disk -> after; in between
+     (pebble syncs a long record in pieces and rotates logs) either *)
+  let agree_model := if (c_j c <? c_first_wal c) || (c_first_wal c =? 0) then rb && c_eq_before c
+                     else if c_syncs c <=? c_j c then ra && c_eq_after c else rb || ra in
+  let agree_spec := c_reopen_ok c && consistent_b (c_recovered c) && (c_eq_before c || c_eq_after c) && (rb || ra) && c_next_ok c
+                    && match c_restore c with Some (h, id) => restore_safe_b (c_recovered c) h id | None => true end in
   code agree_model agree_spec.
